@@ -19,8 +19,8 @@ theorem cut_filter_keep {α} (ok : α → Bool) (raw : List (Notif α)) :
     | error e => simp [List.filter_cons, keepNext]
     | completed => simp [List.filter_cons, keepNext]
 
-theorem toSetHO_feed {α} (h : α → Bool) (eq : α → α → Bool) (s : List α) (ns : List (Notif α)) :
-    (toSetHO h eq).feed s ns = (toSetO eq).feed s (ns.filter (keepNext h)) := by
+theorem toSetAsIsO_feed {α} (h : α → Bool) (eq : α → α → Bool) (s : List α) (ns : List (Notif α)) :
+    (toSetAsIsO h eq).feed s ns = (toSetO eq).feed s (ns.filter (keepNext h)) := by
   induction ns generalizing s with
   | nil => rfl
   | cons n ns ih =>
@@ -29,26 +29,26 @@ theorem toSetHO_feed {α} (h : α → Bool) (eq : α → α → Bool) (s : List 
       cases hv : h v
       · simp only [List.filter_cons, keepNext, hv, Bool.false_eq_true, if_false]
         have := ih s
-        simp only [Op.feed, Op.handle, toSetHO, hv, Bool.false_eq_true, if_false, List.nil_append] at this ⊢
+        simp only [Op.feed, Op.handle, toSetAsIsO, hv, Bool.false_eq_true, if_false, List.nil_append] at this ⊢
         exact this
       · simp only [List.filter_cons, keepNext, hv, if_true]
         have := ih (setAdd eq s v)
-        simp only [Op.feed, Op.handle, toSetHO, toSetO, hv, if_true, List.nil_append] at this ⊢
+        simp only [Op.feed, Op.handle, toSetAsIsO, toSetO, hv, if_true, List.nil_append] at this ⊢
         exact this
     | error e =>
       have := ih s
-      simp only [List.filter_cons, keepNext, if_true, Op.feed, Op.handle, toSetHO, toSetO] at this ⊢
+      simp only [List.filter_cons, keepNext, if_true, Op.feed, Op.handle, toSetAsIsO, toSetO] at this ⊢
       rw [this]
     | completed =>
       have := ih s
-      simp only [List.filter_cons, keepNext, if_true, Op.feed, Op.handle, toSetHO, toSetO] at this ⊢
+      simp only [List.filter_cons, keepNext, if_true, Op.feed, Op.handle, toSetAsIsO, toSetO] at this ⊢
       rw [this]
 
-theorem toSetHO_out {α} (h : α → Bool) (eq : α → α → Bool) (lag : Bool) (raw : List (Notif α)) :
-    (toSetHO h eq).out lag raw = (toSetO eq).out lag (raw.filter (keepNext h)) := by
+theorem toSetAsIsO_out {α} (h : α → Bool) (eq : α → α → Bool) (lag : Bool) (raw : List (Notif α)) :
+    (toSetAsIsO h eq).out lag raw = (toSetO eq).out lag (raw.filter (keepNext h)) := by
   rw [Op.out_eq, Op.out_eq, cut_filter_keep]
-  show cut ((toSetHO h eq).feed [] _) = cut ((toSetO eq).feed [] _)
-  rw [toSetHO_feed]
+  show cut ((toSetAsIsO h eq).feed [] _) = cut ((toSetO eq).feed [] _)
+  rw [toSetAsIsO_feed]
 
 theorem elems_filter_keep {α} (ok : α → Bool) (raw : List (Notif α)) :
     elems (raw.filter (keepNext ok)) = (elems raw).filter ok := by
@@ -69,5 +69,62 @@ theorem ending_filter_keep {α} (ok : α → Bool) (raw : List (Notif α)) :
     | next v => cases h : ok v <;> simp [List.filter_cons, keepNext, h, ih]
     | error e => simp [List.filter_cons, keepNext]
     | completed => simp [List.filter_cons, keepNext]
+
+/-! ### the repaired operators: folds with a `TypeError` step -/
+
+theorem toSetHO_feed {α} (h : α → Bool) (eq : α → α → Bool) (s : List α) (xs : List α) (t : Ending) :
+    cut ((toSetHO h eq).feed s (xs.map .next ++ t.notifs)) = foldRef (xs.foldlM (setStepH h eq) s) id t := by
+  induction xs generalizing s with
+  | nil => cases t <;> simp [Op.feed, Op.handle, toSetHO, Ending.notifs, foldRef, pure, Except.pure]
+  | cons x xs ih =>
+    simp only [List.map_cons, List.cons_append, Op.feed, Op.handle, toSetHO, List.foldlM_cons]
+    cases hx : setStepH h eq s x with
+    | error e => simp [foldRef, bind, Except.bind]
+    | ok s' =>
+      have := ih s'
+      simp only [toSetHO] at this
+      simp only [List.nil_append, bind, Except.bind]
+      exact this
+
+theorem toSetHO_out {α} (h : α → Bool) (eq : α → α → Bool) (lag : Bool) (raw : List (Notif α)) :
+    (toSetHO h eq).out lag raw = foldRef ((elems raw).foldlM (setStepH h eq) []) id (ending raw) := by
+  rw [Op.out_conf]; exact toSetHO_feed h eq [] _ _
+
+theorem toDictHO_feed {α κ ν} (h : κ → Bool) (eq : κ → κ → Bool) (key : α → Except Err κ) (elem : α → Except Err ν)
+    (s : List (κ × ν)) (xs : List α) (t : Ending) :
+    cut ((toDictHO h eq key elem).feed s (xs.map .next ++ t.notifs))
+      = foldRef (xs.foldlM (dictStepH h eq key elem) s) id t := by
+  induction xs generalizing s with
+  | nil => cases t <;> simp [Op.feed, Op.handle, toDictHO, Ending.notifs, foldRef, pure, Except.pure]
+  | cons x xs ih =>
+    simp only [List.map_cons, List.cons_append, Op.feed, Op.handle, toDictHO, List.foldlM_cons]
+    cases hx : dictStepH h eq key elem s x with
+    | error e => simp [foldRef, bind, Except.bind]
+    | ok s' =>
+      have := ih s'
+      simp only [toDictHO] at this
+      simp only [List.nil_append, bind, Except.bind]
+      exact this
+
+theorem toDictHO_out {α κ ν} (h : κ → Bool) (eq : κ → κ → Bool) (key : α → Except Err κ) (elem : α → Except Err ν) (lag : Bool)
+    (raw : List (Notif α)) :
+    (toDictHO h eq key elem).out lag raw = foldRef ((elems raw).foldlM (dictStepH h eq key elem) []) id (ending raw) := by
+  rw [Op.out_conf]; exact toDictHO_feed h eq key elem _ _ _
+
+/-- on hashable input the guarded fold is the plain `set(xs)` fold -/
+theorem setStepH_hashable {α} (h : α → Bool) (eq : α → α → Bool) (xs : List α) (s : List α) (hh : ∀ x ∈ xs, h x = true) :
+    xs.foldlM (setStepH h eq) s = .ok (xs.foldl (setAdd eq) s) := by
+  induction xs generalizing s with
+  | nil => rfl
+  | cons x xs ih =>
+    simp only [List.foldlM_cons, setStepH, hh x List.mem_cons_self, if_true, bind, Except.bind, List.foldl_cons]
+    exact ih _ (fun y hy => hh y (List.mem_cons_of_mem _ hy))
+
+/-- the first unhashable element fails the fold with `TypeError` -/
+theorem setStepH_unhashable {α} (h : α → Bool) (eq : α → α → Bool) (pre : List α) (x : α) (post : List α) (s : List α)
+    (hpre : ∀ y ∈ pre, h y = true) (hx : h x = false) :
+    (pre ++ x :: post).foldlM (setStepH h eq) s = .error "TypeError" := by
+  rw [List.foldlM_append, setStepH_hashable h eq pre s hpre]
+  simp [List.foldlM_cons, setStepH, hx, bind, Except.bind]
 
 end Agg
